@@ -237,6 +237,18 @@ func (g *qgen) dirs() []Dir {
 	}
 }
 
+// dirsForced: directives for certain, wherever the generator uses directives at all.
+func (g *qgen) dirsForced() []Dir {
+	if g.o.PDir == 0 {
+		return nil
+	}
+	save := g.o.PDir
+	g.o.PDir = 100
+	ds := g.dirs()
+	g.o.PDir = save
+	return ds
+}
+
 // An alias stands for one (field, argument) per parent type in the whole query, so that selections
 // merged by Flatten never conflict.
 func (g *qgen) field(t *TypeSpec, f *FieldSpec, depth int) *Node {
@@ -518,6 +530,28 @@ func (g *qgen) unionSet(uname string, depth int) []*Node {
 		out = append(out, &Node{Kind: "field", Name: "__typename", Alias: "__typename"})
 	}
 	ms := unionMembers[uname]
+	if !g.inFrag && len(g.q.Frags) < 4 && g.r.Chance(22) {
+		// member fragments nested inside a named fragment: fragment Fk on M { ... on M @d1 { leaves
+		// ... on M @d2 { leaves } } leaves }, spread under the union with directives of its own,
+		// sometimes twice with different ones
+		m := ms[g.r.Intn(len(ms))]
+		f := &FragDef{Name: fmt.Sprintf("F%d", len(g.q.Frags)), On: m, ID: g.id()}
+		g.inFrag = true
+		inner := &Node{Kind: "inline", On: m, Dirs: g.dirsForced(), ID: g.id(), Sub: g.set(m, 0)}
+		outer := &Node{Kind: "inline", On: m, Dirs: g.dirsForced(), ID: g.id()}
+		outer.Sub = append(g.set(m, 0), inner)
+		f.Body = []*Node{outer}
+		if g.r.Chance(50) {
+			f.Body = append(f.Body, g.set(m, 0)...)
+		}
+		g.inFrag = false
+		g.q.Frags = append(g.q.Frags, f)
+		g.byType[m] = append(g.byType[m], f)
+		out = append(out, &Node{Kind: "spread", Frag: f.Name, Dirs: g.dirsForced(), ID: g.id()})
+		if g.r.Chance(45) {
+			out = append(out, &Node{Kind: "spread", Frag: f.Name, Dirs: g.dirs(), ID: g.id()})
+		}
+	}
 	n := 1 + g.r.Intn(4)
 	for i := 0; i < n; i++ {
 		m := ms[g.r.Intn(len(ms))]
